@@ -35,7 +35,7 @@ def c03(ctx, replay):
     recv_rows(ctx, "c03", n, False, off)
     recv_rows(ctx, "c03", n, True, on)
     chunks = "whole,one,split2" if ctx.quick() else "whole,one,split2,rand"
-    modes = "ct,nct" if ctx.quick() else "ct,nct,c_nct,s_nct"
+    modes = "ct,nct,c_nct,s_nct"     # the asymmetric agreements too: the inflater follows the SENDER's side of the agreement
     sizes = "120-130,4085-4105,8180-8200" if ctx.quick() else "120-130,4080-4112,8176-8208,12270-12300,32755-32780,65525-65545"
     rtrace = ctx.path("c03recv.ndjson")
     rep = ctx.drive("recv", ["-letters", lp, "-rows-off", off, "-rows-on", on, "-seed", ctx.seed, "-chunks", chunks, "-modes-on", modes, "-sizes", sizes,
@@ -302,6 +302,12 @@ def c20(ctx, replay):
     ctx.tlc("WSLifeRows", "WSLifeRows.cfg", env={"OUT": rows, "N": 2 if ctx.quick() else 3}, workers=2, name="life-histories")
     rep = ctx.drive_sharded("life", ["-rows", rows], min(core.NCPU, 16), timeout=3000)
     ctx.absorb(rep)
+    # refinement: executions in which the CloseRead goroutine is the reader (a data message makes it close with 1008; Close and
+    # the peer race it), and executions with a concurrent CloseNow, replayed through WSConn: CloseReturnedClean (timeoutLoop gone,
+    # CloseRead goroutine done, nobody inside close()) is evaluated in every state on the way
+    core.refine_validate(ctx, 150 if ctx.quick() else 1200, only=SIG_REFINE, kind="cr")
+    if not ctx.quick():
+        core.refine_validate(ctx, 1200, only=SIG_REFINE, kind="n")
     conc_campaign(ctx, 300 if ctx.quick() else 3000, SIG_C20)
     if not ctx.quick():
         repo_tests_traced(ctx, SIG_C20)
